@@ -108,7 +108,12 @@ where
 
 fn envs(rep: &mut Report) -> Vec<AppEnv> {
     let mut v = Vec::new();
-    for c in [cfg_plain(), cfg_lists()] {
+    let mut cfgs = vec![cfg_plain(), cfg_lists()];
+    if rep.tier == "thorough" {
+        // the same sweeps on the overflow-checked build with every log argument evaluated
+        cfgs.push(cfg_lists().with_profile(crate::driver::Profile::Dev).with_log(crate::driver::LoggerKind::None, crate::driver::Level::Trace));
+    }
+    for c in cfgs {
         match AppEnv::new(c) {
             Ok(e) => v.push(e),
             Err(e) => rep.sink.machinery_errors.push(e),
@@ -232,11 +237,11 @@ pub fn run_c13(rep: &mut Report, thorough: bool) {
     let reqs = http_requests();
     let core = http_core();
     for env in envs(rep) {
-        let tag = if env.cfg.self_ips.is_empty() { "plain" } else { "lists" };
+        let tag = if env.cfg.profile == crate::driver::Profile::Dev { "dev" } else if env.cfg.self_ips.is_empty() { "plain" } else { "lists" };
         let paths = all_paths();
-        let np: u64 = if thorough { paths.len() as u64 } else { 2 };
-        let sel = |k: u64| if thorough { paths[k as usize] } else { [Path { tcp: false, v6: false, ports: 0 }, Path { tcp: true, v6: true, ports: 1 }][k as usize] };
-        let stride: u64 = if thorough { 1 } else { 5 };
+        let np: u64 = if thorough { paths.len() as u64 } else { 4 };
+        let sel = |k: u64| if thorough { paths[k as usize] } else { [Path { tcp: false, v6: false, ports: 0 }, Path { tcp: true, v6: true, ports: 1 }, Path { tcp: false, v6: true, ports: 1 }, Path { tcp: true, v6: false, ports: 0 }][k as usize] };
+        let stride: u64 = 1;
         let n = reqs.len() as u64 / stride;
         sweep_app(rep, &env, &format!("http-grammar-{}", tag), "request grammar product x transport/IP/port paths", n * np, |i| (sel(i % np), reqs[((i / np) * stride + (i % stride)) as usize % reqs.len()].clone()));
         // request-target length: every length 1..1400 (all fit one segment / datagram)
@@ -246,6 +251,20 @@ pub fn run_c13(rep: &mut Report, thorough: bool) {
             r.extend(std::iter::repeat(b'y').take(n - 1));
             r.extend_from_slice(b" HTTP/1.1\r\nHost: x\r\n\r\n");
             (if i % 2 == 0 { Path { tcp: false, v6: false, ports: 0 } } else { Path { tcp: true, v6: true, ports: 1 } }, r)
+        });
+        sweep_app(rep, &env, &format!("http-header-length-{}", tag), "one header whose value (even i) or name (odd i) has every length 0..1350 x {UDP, TCP}", 1351 * 2 * 2, |i| {
+            let d = unrank(i, &[1351, 2, 2]);
+            let n = d[0] as usize;
+            let mut r = b"POST /f HTTP/1.0\n".to_vec();
+            if d[1] == 0 {
+                r.extend_from_slice(b"V:");
+                r.extend(std::iter::repeat(b'v').take(n));
+            } else {
+                r.extend(std::iter::repeat(b'N').take(n + 1));
+                r.extend_from_slice(b": x");
+            }
+            r.extend_from_slice(b"\n\n");
+            (if d[2] == 0 { Path { tcp: false, v6: true, ports: 1 } } else { Path { tcp: true, v6: false, ports: 0 } }, r)
         });
         // single faults
         let ncore: usize = if thorough { core.len() } else { 24 };
@@ -289,7 +308,7 @@ pub fn run_c14(rep: &mut Report, thorough: bool) {
     let p4 = Path { tcp: false, v6: false, ports: 0 };
     let p6 = Path { tcp: false, v6: true, ports: 1 };
     for env in envs(rep) {
-        let tag = if env.cfg.self_ips.is_empty() { "plain" } else { "lists" };
+        let tag = if env.cfg.profile == crate::driver::Profile::Dev { "dev" } else if env.cfg.self_ips.is_empty() { "plain" } else { "lists" };
         let q1 = vec![(dns_labels("www.example.com"), 1u16, 1u16)];
         sweep_app(rep, &env, &format!("dns-id-{}", tag), "id 0..65535", 65536, |i| (p4, appdns::build_query(i as u16, 0x0100, &q1)));
         sweep_app(rep, &env, &format!("dns-flags-{}", tag), "flag word 0..65535 x {1,2} questions", 65536 * 2, |i| {
@@ -372,7 +391,7 @@ pub fn run_c15(rep: &mut Report, thorough: bool) {
     let pt6 = Path { tcp: true, v6: true, ports: 0 };
     let paths = [pu4, pu6, pt4, pt6];
     for env in envs(rep) {
-        let tag = if env.cfg.self_ips.is_empty() { "plain" } else { "lists" };
+        let tag = if env.cfg.profile == crate::driver::Profile::Dev { "dev" } else if env.cfg.self_ips.is_empty() { "plain" } else { "lists" };
         // message type word
         sweep_app(rep, &env, &format!("stun-type-{}", tag), "message type 0..65535 x {magic 20-byte, classic 20-byte, classic 28-byte}", 65536 * 3, |i| {
             let ty = (i % 65536) as u16;
@@ -449,6 +468,13 @@ pub fn run_c15(rep: &mut Report, thorough: bool) {
             body.extend_from_slice(&decl[d[1] as usize].to_be_bytes());
             body.extend(vec![0x01u8; d[2] as usize]);
             (if d[4] == 0 { pu4 } else { pt4 }, stun_magic(&body, &ID12))
+        });
+        sweep_app(rep, &env, &format!("stun-attr-length-{}", tag), "one unknown attribute of every 4-byte-aligned length 0..1400 (before or after a CHANGE-REQUEST) x 4 paths", 351 * 2 * 4, |i| {
+            let d = unrank(i, &[351, 2, 4]);
+            let big = stun_attr(0x8022, &vec![0x55u8; d[0] as usize * 4]);
+            let cr = stun_attr(3, &[0, 0, 0, 2]);
+            let body = if d[1] == 0 { [big, cr].concat() } else { [cr, big].concat() };
+            (paths[d[2] as usize], stun_magic(&body, &ID12))
         });
         // CHANGE-REQUEST flags x destination ports; source ports
         let t0 = std::time::Instant::now();
@@ -528,8 +554,8 @@ pub fn run_c16(rep: &mut Report, thorough: bool) {
         }
     };
     for env in envs(rep) {
-        let tag = if env.cfg.self_ips.is_empty() { "plain" } else { "lists" };
-        let np: u64 = if thorough { 4 } else { 1 };
+        let tag = if env.cfg.profile == crate::driver::Profile::Dev { "dev" } else if env.cfg.self_ips.is_empty() { "plain" } else { "lists" };
+        let np: u64 = if thorough { 4 } else { 2 };
         let dims = [np, 256, vers.len() as u64, 256];
         sweep_app(rep, &env, &format!("rpc-prog-vers-proc-{}", tag), "paths x 256 programs x 8 versions x 256 procedures", product(&dims), |i| {
             let d = unrank(i, &dims);
@@ -697,7 +723,7 @@ pub fn run_c17(rep: &mut Report, thorough: bool) {
     let s1 = sequences(d1.len(), 4);
     let s2 = sequences(d2.len(), 4);
     for env in envs(rep) {
-        let tag = if env.cfg.self_ips.is_empty() { "plain" } else { "lists" };
+        let tag = if env.cfg.profile == crate::driver::Profile::Dev { "dev" } else if env.cfg.self_ips.is_empty() { "plain" } else { "lists" };
         // SMB1 ids
         let dims = [2u64, 2, 5, 65536];
         sweep_app(rep, &env, &format!("smb1-ids-{}", tag), "{negotiate, session setup} x {PID-high, PID-low, TID, UID, MID} x all 65536 values x {UDP, TCP}", product(&dims), |i| {
@@ -730,6 +756,25 @@ pub fn run_c17(rep: &mut Report, thorough: bool) {
             let d = unrank(i, &[2, 2, 64]);
             let blob: Vec<u8> = (0..=d[2]).map(|k| k as u8).collect();
             let m = if d[1] == 0 { appsmb::smb1_session_setup(&Smb1Hdr::new(0x73), &blob) } else { appsmb::smb2_session_setup(&Smb2Hdr::new(1), &blob) };
+            (two[d[0] as usize], m)
+        });
+        sweep_app(rep, &env, &format!("smb-blob-long-{}", tag), "session-setup blob lengths 65..1300 x {SMB1, SMB2} x {UDP, TCP}", 1236 * 2 * 2, |i| {
+            let d = unrank(i, &[2, 2, 1236]);
+            let blob: Vec<u8> = (0..d[2] + 65).map(|k| (k * 3) as u8).collect();
+            let m = if d[1] == 0 { appsmb::smb1_session_setup(&Smb1Hdr::new(0x73), &blob) } else { appsmb::smb2_session_setup(&Smb2Hdr::new(1), &blob) };
+            (two[d[0] as usize], m)
+        });
+        sweep_app(rep, &env, &format!("smb-dialects-long-{}", tag), "dialect lists of every length 1..200 (SMB1: distinct strings ending with NT LM 0.12; SMB2: distinct revisions ending with 0x0311) x {UDP, TCP}", 200 * 2 * 2, |i| {
+            let d = unrank(i, &[2, 2, 200]);
+            let n = d[2] as usize + 1;
+            let m = if d[1] == 0 {
+                let names: Vec<String> = (0..n - 1).map(|k| format!("D{}", k)).chain(["NT LM 0.12".to_string()]).collect();
+                let refs: Vec<&str> = names.iter().map(|x| x.as_str()).collect();
+                appsmb::smb1_negotiate(&Smb1Hdr::new(0x72), &refs)
+            } else {
+                let revs: Vec<u16> = (0..n - 1).map(|k| 0x1000 + k as u16).chain([0x0311]).collect();
+                appsmb::smb2_negotiate(&Smb2Hdr::new(0), &revs, &[5; 16])
+            };
             (two[d[0] as usize], m)
         });
         // SMB2 ids
@@ -898,7 +943,7 @@ pub fn run_c18(rep: &mut Report, thorough: bool) {
     let pt = Path { tcp: true, v6: true, ports: 1 };
     let banners: Vec<&[u8]> = vec![b"SSH-2.0-SOFTWARE COMMENT\r\n", b"SSH-1.99-SOFTWARE COMMENT\r\n", b"SSH-2.0-SOFT WARE COMMENT\r\n", b"SSH-2.0-SOFTWARE  COMMENT\r\n", b"SSH-2.0-SOFT\rWARE COM\rMENT\r\n", b"SSH-2.0-SOFTWARE\r\n", b"SSH-2.0-SOFTWARE COMMENT\n", b"SSH-2.0-SOFTWARE COMMENT\r", b"SSH-1.99-S C\r\n", b"SSH-2.0.1-a\r\n", b"SSH-2.0-a\r\r\n"];
     for env in envs(rep) {
-        let tag = if env.cfg.self_ips.is_empty() { "plain" } else { "lists" };
+        let tag = if env.cfg.profile == crate::driver::Profile::Dev { "dev" } else if env.cfg.self_ips.is_empty() { "plain" } else { "lists" };
         let dims = [2u64, 2, 2, total_strings];
         sweep_app(rep, &env, &format!("ssh-strings-{}", tag), "prefix {SSH-2.0, SSH-1.99} x {bare, + '-x CR LF'} x {UDP, TCP} x all strings of length <= L over 9 symbols", product(&dims), |i| {
             let d = unrank(i, &dims);
@@ -917,6 +962,16 @@ pub fn run_c18(rep: &mut Report, thorough: bool) {
             let j = i / 2;
             let k = boffs.partition_point(|o| *o <= j) - 1;
             (if i % 2 == 0 { pu } else { pt }, fault(banners[k], j - boffs[k]))
+        });
+        sweep_app(rep, &env, &format!("ssh-long-{}", tag), "software / comment / version of every length 1..1300 x {UDP, TCP}", 1300 * 3 * 2, |i| {
+            let d = unrank(i, &[1300, 3, 2]);
+            let n = d[0] as usize + 1;
+            let m: Vec<u8> = match d[1] {
+                0 => [b"SSH-2.0-".to_vec(), vec![b's'; n], b"\r\n".to_vec()].concat(),
+                1 => [b"SSH-1.99-x ".to_vec(), vec![b'c'; n], b"\r\n".to_vec()].concat(),
+                _ => [b"SSH-2.0".to_vec(), vec![b'.'; n], b"-x\r\n".to_vec()].concat(),
+            };
+            (if d[2] == 0 { pu } else { pt }, m)
         });
         let gt = 1 + 9 + 81 + 729;
         sweep_app(rep, &env, &format!("ghost-tails-{}", tag), "Gh0st magic + every tail of length <= 3 over 9 symbols, the captured request, tails of 1/2/4 KB, x {UDP v4, TCP v6, UDP v6, TCP v4}", (gt + 4) * 4, |i| {
